@@ -53,8 +53,13 @@ func (f Family) Label() string {
 var g1Radii = []int64{1000, 10000, 1000000, 100000000, maxC}
 
 func drawFamily(t *rapid.T) Family {
-	k := rapid.IntRange(0, 9).Draw(t, "famKind")
+	k := rapid.IntRange(0, 10).Draw(t, "famKind")
 	switch {
+	case k == 10:
+		// plain axis-parallel boxes on a coarse grid, either orientation, several per set: unions
+		// whose rings are cut many times along coincident edges
+		step := rapid.SampledFrom([]int64{1, 10, 1000, 1 << 20}).Draw(t, "step")
+		return Family{Kind: "boxes", R: 13 * step, Step: step}
 	case k <= 3:
 		return Family{Kind: "g1", R: rapid.SampledFrom(g1Radii).Draw(t, "R"), Spread: rapid.IntRange(0, 2).Draw(t, "spread") > 0}
 	case k <= 5:
@@ -76,7 +81,7 @@ func drawFamily(t *rapid.T) Family {
 func drawStrictFamily(t *rapid.T) Family {
 	for {
 		f := drawFamily(t)
-		if f.Kind == "g1" || f.Kind == "rect" || f.Kind == "oct" {
+		if f.Kind == "g1" || f.Kind == "rect" || f.Kind == "oct" || f.Kind == "boxes" {
 			return f
 		}
 	}
@@ -104,6 +109,14 @@ func clampC(v int64) int64 {
 // drawClosedPath draws one closed path of the family (may self-intersect freely).
 func drawClosedPath(t *rapid.T, f Family) Path {
 	switch f.Kind {
+	case "boxes":
+		x0, y0 := rapid.Int64Range(0, 12).Draw(t, "bx"), rapid.Int64Range(0, 12).Draw(t, "by")
+		x1, y1 := rapid.Int64Range(x0+1, 13).Draw(t, "bx1"), rapid.Int64Range(y0+1, 13).Draw(t, "by1")
+		p := Path{{X: x0 * f.Step, Y: y0 * f.Step}, {X: x1 * f.Step, Y: y0 * f.Step}, {X: x1 * f.Step, Y: y1 * f.Step}, {X: x0 * f.Step, Y: y1 * f.Step}}
+		if rapid.Bool().Draw(t, "brev") {
+			p = c2.ReversePath(p)
+		}
+		return p
 	case "rect":
 		m := rapid.IntRange(2, 6).Draw(t, "corners")
 		xs := make([]int64, m)
@@ -222,6 +235,9 @@ func drawDegeneratePath(t *rapid.T, f Family) Path {
 // drawClosedPaths draws a set of lo..hi closed paths; with small probability one of
 // them is degenerate or a copy / reversed copy of another (exact coincidence).
 func drawClosedPaths(t *rapid.T, f Family, lo, hi int, label string) Paths {
+	if f.Kind == "boxes" {
+		hi += 3
+	}
 	n := rapid.IntRange(lo, hi).Draw(t, label+"Count")
 	ps := make(Paths, 0, n)
 	for i := 0; i < n; i++ {
